@@ -37,6 +37,7 @@ type Conn struct {
 	CloseWrites int
 	Closes      int
 	WriteErr    error // injected: every Write fails with this error
+	EOFWithData bool  // a Read that drains the last bytes of a shut-down stream returns them together with io.EOF (as crypto/tls does)
 }
 
 // Pair returns the two ends of a stream whose per-direction buffer holds cap bytes.
@@ -78,6 +79,9 @@ func (c *Conn) Read(b []byte) (int, error) {
 		}
 		n := copy(b[:lim], c.in.buf)
 		c.in.buf = c.in.buf[n:]
+		if c.EOFWithData && len(c.in.buf) == 0 && c.in.wclosed {
+			return n, io.EOF
+		}
 		return n, nil
 	}
 	return 0, io.EOF
